@@ -217,6 +217,34 @@ def run(pid, tier, seed):
                 for o in (opts if tier == "thorough" else [opts[0], rng.choice(opts)]):
                     cases.append(("text:" + label, Case({name: blob}, ["--color", "never"] + o + [name]),
                                   Case(files, ["--color", "never"] + o + [arg])))
+        # text whose newlines fall on the FIRST byte of a block (and, further on, on the last): read from the start, and under
+        # windows that open past such lines -- a streamed form passes over them on its way to the window
+        for B_ in (64, 4096):
+            out_, k_ = [], 0
+
+            def line_(total_len):
+                nonlocal k_
+                k_ += 1
+                head = gen.fmt_ts(gen.BASE + k_, 0, None, 0).encode() + b" al=%d " % k_
+                return head + b"a" * (total_len - len(head) - 1) + b"\n"
+            out_.append(line_(30))
+            out_.append(line_(30))
+            pos = 60
+            out_.append(line_((B_ - pos % B_) + B_ + 1))          # its newline is byte 0 of a block
+            for _ in range(40 if B_ == 64 else 6):
+                out_.append(line_(B_))                              # ... and so are these
+            out_.append(line_(B_ - 1))                             # from here on: newline on the last byte of a block
+            for _ in range(40 if B_ == 64 else 6):
+                out_.append(line_(B_))
+            for _ in range(10):
+                out_.append(line_(37))
+            blob = b"".join(out_)
+            name = "al%d.log" % B_
+            for label, files, arg in containers(rng, name, blob, tier):
+                for a_ in ([None] + [gen.BASE + x for x in (4, 20, k_ // 2, k_ - 12, k_ - 3)]):
+                    o = ["--blocksz", str(B_)] + (["-a", gen.fmt_ts(a_, 0, None, 0)] if a_ else [])
+                    cases.append(("text:" + label, Case({name: blob}, ["--color", "never"] + o + [name]),
+                                  Case(files, ["--color", "never"] + o + [arg])))
         # accounting records: small and many-block
         for ri, nrec in enumerate([1, 3, 40] + ([400] if tier == "quick" else [400, 1500])):
             blob = b"".join(c08.rec_bytes(i + 1, 1 + (i * 7) % 97, usec=i % 5) for i in range(nrec))
